@@ -28,6 +28,7 @@ Hypothesis Hplain : forall x, Q (YPlain x).
 Hypothesis Hgo : forall x, Q (YGoStr x).
 Hypothesis Hnum : forall d, Q (YNum d).
 Hypothesis Hbool : forall b, Q (YBool b).
+Hypothesis Hnull : Q YNull.
 Hypothesis Hseq : forall l, Forall Q l -> Q (YSeq l).
 Hypothesis Hmap : forall kv, Forall (fun e => Q (snd e)) kv -> Q (YMap kv).
 Fixpoint ynode_ind' (n : ynode) : Q n :=
@@ -37,6 +38,7 @@ Fixpoint ynode_ind' (n : ynode) : Q n :=
   | YGoStr x => Hgo x
   | YNum d => Hnum d
   | YBool b => Hbool b
+  | YNull => Hnull
   | YSeq l => Hseq l ((fix go (l : list ynode) : Forall Q l :=
                          match l with [] => Forall_nil _ | a :: r => Forall_cons a (ynode_ind' a) (go r) end) l)
   | YMap kv => Hmap kv ((fix go (kv : list (str * ynode)) : Forall (fun e => Q (snd e)) kv :=
@@ -47,9 +49,10 @@ End YInd.
 Theorem denote_agree (R1 R2 : reader) (n : ynode) :
   (forall e, In e (scalars n) -> rd_scalar R1 e = rd_scalar R2 e) -> denote R1 n = denote R2 n.
 Proof.
-  induction n as [x|x|x|d|b|l IH|kv IH] using ynode_ind'; intros H.
+  induction n as [x|x|x|d|b| |l IH|kv IH] using ynode_ind'; intros H.
   - exact (H (true, x) (or_introl eq_refl)).
   - exact (H (false, x) (or_introl eq_refl)).
+  - reflexivity.
   - reflexivity.
   - reflexivity.
   - reflexivity.
